@@ -265,6 +265,51 @@ fn check_struct(t: &Sink, m: &SM) -> Result<(), String> {
     }
 }
 
+/// Take Limit / Chain apart with `into_inner()` and compare every piece with the model.
+fn dismantle(t: Sink, m: &SM) -> Result<(), String> {
+    match (t, m) {
+        (Sink::Limit(l), SM::Limit(mi, lim)) => {
+            let have = Limit::limit(&l);
+            if have != *lim {
+                return Err(format!("Limit::limit() = {}, want {}", have, lim));
+            }
+            let inner: Box<Sink> = l.into_inner();
+            dismantle(*inner, mi).map_err(|e| format!("Limit::into_inner: {}", e))
+        }
+        (Sink::Chain(c), SM::Chain(a, b)) => {
+            let (x, y): (Box<Sink>, Box<Sink>) = c.into_inner();
+            dismantle(*x, a).map_err(|e| format!("Chain::into_inner().0: {}", e))?;
+            dismantle(*y, b).map_err(|e| format!("Chain::into_inner().1: {}", e))
+        }
+        (other, m) => check_struct(&other, m),
+    }
+}
+
+/// Write one byte into the innermost target that still has room, through the mutable accessors only
+/// (the adapters' own counters must not move). Returns false if nothing could be written.
+fn poke(t: &mut Sink, m: &mut SM) -> bool {
+    match (t, m) {
+        (Sink::Limit(l), SM::Limit(mi, _)) => poke(l.get_mut(), mi),
+        (Sink::Chain(c), SM::Chain(a, b)) => {
+            if a.rem() > 0 {
+                poke(c.first_mut(), a)
+            } else {
+                poke(c.last_mut(), b)
+            }
+        }
+        (Sink::Ref(r), SM::Wrap(mi)) => poke(&mut *r.0, mi),
+        (Sink::Dyn(_), _) => false,
+        (leaf, mm) => {
+            if mm.rem() == 0 || !matches!(mm, SM::Grow(..) | SM::Fixed(..)) {
+                return false;
+            }
+            leaf.put_u8(0x9d);
+            mm.write(&[0x9d]);
+            true
+        }
+    }
+}
+
 pub struct Fail {
     pub property: &'static str,
     pub case: String,
@@ -322,6 +367,10 @@ pub enum WOp {
     /// put(Buf) with a source that under-reports remaining() (claims k, hands out a 16-byte chunk): contents are
     /// unspecified afterwards, but no byte outside the target's writable region may be modified
     BufUnder(usize),
+    /// take the adapters apart with into_inner() (recursively) and compare every piece with the model
+    Dismantle,
+    /// write one byte straight into the innermost target through get_mut() / first_mut() / last_mut()
+    PokeInner,
 }
 
 fn src_shape(idx: usize, d: &[u8]) -> Spec {
@@ -395,6 +444,7 @@ fn apply(t: &mut Sink, m: &mut SM, op: &WOp, seq_no: usize, stats: &mut Stats) -
         WOp::Slice(k) => ("put_slice".into(), payload(*k, 0x21 + seq_no as u8 * 16)),
         WOp::Bytes(v, k) => ("put_bytes".into(), if *k > 4096 { vec![] } else { vec![*v; *k] }),
         WOp::BufUnder(_) => ("put(under-reporting Buf)".into(), vec![]),
+        WOp::Dismantle | WOp::PokeInner => return Ok(false),
         WOp::Buf(_, k) => ("put(Buf)".into(), payload(*k, 0x41 + seq_no as u8 * 16)),
         WOp::WriterWrite(k) => ("Writer::write".into(), payload(*k, 0x61 + seq_no as u8 * 16)),
         WOp::ChunkWrite(k) => ("chunk_mut+advance_mut".into(), payload((*k).max(1), 0x81 + seq_no as u8 * 16)),
@@ -572,7 +622,7 @@ fn apply(t: &mut Sink, m: &mut SM, op: &WOp, seq_no: usize, stats: &mut Stats) -
                 Err(_) => return Err(f12("writer-panic", format!("Writer::write({} bytes) with room for {} panicked", bytes.len(), rem))),
             }
         }
-        WOp::SetLimit(_) | WOp::ChunkWrite(_) | WOp::UninitMisuse(_) | WOp::BufUnder(_) => unreachable!(),
+        WOp::SetLimit(_) | WOp::ChunkWrite(_) | WOp::UninitMisuse(_) | WOp::BufUnder(_) | WOp::Dismantle | WOp::PokeInner => unreachable!(),
     };
     if !fits {
         stats.expected_panics += 1;
@@ -652,6 +702,19 @@ pub fn run_sequence(spec: &SSpec, seq: &[WOp], parity_odd: bool, stats: &mut Sta
         let (mut t, mut m) = b.build(spec);
         observe(&mut t, &m)?;
         for (i, op) in seq.iter().enumerate() {
+            if let WOp::Dismantle = op {
+                dismantle(t, &m).map_err(|e| f12("into_inner", e))?;
+                return Ok(None);
+            }
+            if let WOp::PokeInner = op {
+                if poke(&mut t, &mut m) {
+                    observe(&mut t, &m).map_err(|mut f| {
+                        f.msg = format!("after writing one byte into the innermost target through get_mut()/first_mut()/last_mut(): {}", f.msg);
+                        f
+                    })?;
+                }
+                return Ok(None);
+            }
             let cont = apply(&mut t, &mut m, op, i, stats)?;
             if !cont {
                 return Ok(None);
@@ -749,6 +812,8 @@ fn sized_ops(rem: usize, first: usize, with_writer: bool, lim: Option<usize>, le
     for claim in [0usize, 1, 4, 9] {
         v.push(WOp::BufUnder(claim));
     }
+    v.push(WOp::Dismantle);
+    v.push(WOp::PokeInner);
     if let Some(l) = lim {
         let mut ls = vec![0usize, 1, l.saturating_sub(1), l.saturating_add(1), usize::MAX];
         ls.sort();
